@@ -4,6 +4,7 @@ package main
 import (
 	"context"
 	"fmt"
+	"github.com/theparanoids/ysshra/sshutils/key"
 	"strings"
 	"time"
 
@@ -117,6 +118,12 @@ func (s *stubHandler) Generate(*csr.ReqParam) ([]csr.AgentKey, error) {
 		opt := agssh.DefaultKeyOpt
 		opt.PrivateKeyValiditySec = 7200
 		opt.CertLabel = fmt.Sprintf("stub-cert-%d", i)
+		// every key type the RA can generate (RSA sparingly: slow to make)
+		opt.PublicKeyAlgo = []key.PublicKeyAlgo{key.ECDSAsecp384r1, key.ED25519, key.ECDSAsecp256r1, key.ECDSAsecp521r1}[(i+s.nCSRs)%4]
+		if s.nKeys == 3 && s.nCSRs == 1 && i == 2 {
+			opt.PublicKeyAlgo = key.RSA2048
+		}
+		opt.PrivateKeyLabel = []string{"private-key", "", "stub key"}[(i+s.nKeys)%3]
 		lbl := opt.CertLabel
 		opt.KeyRefreshFilter = func(k *agent.Key) bool { return strings.Contains(k.Comment, lbl) }
 		ak, err := agssh.NewSSHAgentKeyWithOpt(s.ag, opt)
